@@ -34,6 +34,18 @@ Definition ctr (r : role) (s : sys) : N :=
 Definition key (r : role) (s : sys) : N :=
   match r with Reader => r_kr (s_rdr s) | Device => d_kd (s_dev s) end.
 
+(* a message whose IV carries counter `crafted` opens under the IV the receiver computes from its receive counter `ctr`
+   exactly when it is the next message: there is no counter below 2^32 that "comes round again" *)
+Lemma far_accept_iff r ctr crafted :
+  ctr + 1 < two32 -> crafted < two32 ->
+  (bytes_eqb (snd (next_iv r ctr)) (iv r crafted) = true <-> crafted = ctr + 1).
+Proof.
+  intros Hc Hm. unfold next_iv. cbn [snd]. rewrite incr_small by exact Hc. rewrite !iv_iso.
+  rewrite bytes_eqb_eq. split.
+  - intro H. apply iso_iv_inj in H; [destruct H as [_ H]; symmetry; exact H | exact Hc | exact Hm].
+  - intro H. rewrite H. reflexivity.
+Qed.
+
 Lemma ems_of_app r a b : ems_of r (a ++ b) = ems_of r a ++ ems_of r b.
 Proof. apply filter_app. Qed.
 
